@@ -16,11 +16,12 @@ Record fixes := mkFixes {
   fx_encode : bool;    (* F6: a record whose encoding logged an error is refused *)
   fx_register : bool;  (* F7: templates are registered after a successful send, not before *)
   fx_setid : bool;     (* F12: a data record's template id must equal the set header id *)
-  fx_reclen : bool     (* a data record whose encoded fields do not fill its recorded length (the value of
+  fx_reclen : bool;    (* a data record whose encoded fields do not fill its recorded length (the value of
                           a variable-length element became shorter after the add) counts as an encode error *)
+  fx_zerolen : bool    (* a data record of length 0 is encoded (and its values checked) like any other *)
 }.
-Definition orig : fixes := mkFixes false false false false.
-Definition cur : fixes := mkFixes true true true true.
+Definition orig : fixes := mkFixes false false false false false.
+Definition cur : fixes := mkFixes true true true true true.
 
 Definition tmap := list (N * (list ie * N)).
 Record exp := mkExp { x_obs : N; x_seq : N; x_tpls : tmap; x_udp : bool }.
@@ -42,7 +43,7 @@ Definition sanity (fx : fixes) (m : tmap) (r : rec) : outcome unit :=
   | Some (ies, minlen) =>
       if negb (N.eqb (rec_fc r) (u16 (N.of_nat (length ies)))) then Err ErrSanity
       else
-        do (b, nerr) <- (if fx_reclen fx then rec_buffer_e r else rec_buffer_e_orig r);
+        do (b, nerr) <- rec_buffer_e_g (fx_zerolen fx) (fx_reclen fx) r;
         if blen b <? minlen then Err ErrSanity
         else if fx_encode fx && negb (Nat.eqb nerr 0) then Err ErrEncode
         else Ok tt
